@@ -125,6 +125,23 @@ def nfkc_unstable(key):
     return False
 
 
+ONES = ['', 'one', 'two', 'three', 'four', 'five', 'six', 'seven', 'eight', 'nine']
+
+
+def fold_digit_words(key):
+    """fold of the key after a leading digit 1-9 of its label is spelled out ('1day' -> 'one_day'), which is what the field
+    name is made of; equal for '1day' and 'one_day' although their plain folds differ (finding digit-word-collision)"""
+    lab = label_of(key, True)
+    if lab[:1] in "123456789" and lab[:1]:
+        return fold(ONES[int(lab[0])] + "_" + lab[1:])
+    return fold(key)
+
+
+def digit_word_collision(keys):
+    ks = list(keys)
+    return len({fold(k) for k in ks}) == len(ks) and len({fold_digit_words(k) for k in ks}) != len(ks)
+
+
 def class_forms(key):
     """(name before sanitising, sanitised forms) of the class derived from a key holding an object"""
     raw = inflection.camelize(inflection.singularize(inflection.underscore(key)))
@@ -176,7 +193,7 @@ def key_universe(pools, min_size=1, max_size=8, allow_digit_first=False):
                     pool.append(k)
         _POOL_CACHE[ck] = pool
     return st.lists(st.sampled_from(pool), min_size=min_size, max_size=max_size, unique_by=fold).filter(
-        lambda ks: not class_name_collision(ks))
+        lambda ks: not class_name_collision(ks) and not digit_word_collision(ks))
 
 
 def excluded_counts(pools, allow_digit_first=False):
